@@ -200,6 +200,20 @@ Theorem shape_conformance : forall e1 e2,
 Proof. exact ShapesProofs.shape_conformance. Qed.
 Print Assumptions shape_conformance.
 
+(* results of add/sub, negation, scalar multiple (copied shape: object_arr_copy /
+   object_arr_dim_copy) and of the matrix product carry the dimension vector of a freshly
+   built array of their shape, for every number of dimensions: array_deref_spec applies to them *)
+Theorem arith_result_indexing : forall e,
+  (exists acc, arr_addsub (Some (new_arr e)) (Some (new_arr e)) = Ok acc /\ acc_dv acc = mk_arr e) /\
+  (exists acc, arr_unary (Some (new_arr e)) = Ok acc /\ acc_shape acc = e /\ acc_dv acc = mk_arr e /\
+     forall w r1 r2, In (w, r1, r2) (acc_reads acc) -> w = r1 /\ 0 <= r1 < a_elems (new_arr e)) /\
+  arr_unary None = Exc NilPointer /\
+  (forall m k n acc, arr_matmul (Some (new_arr [m; k])) (Some (new_arr [k; n])) = Ok acc ->
+     acc_dv acc = mk_arr [m; n]) /\
+  (forall idx, array_deref (Some (a_dv (arr_copy (new_arr e)))) idx = array_deref (Some (mk_arr e)) idx).
+Proof. exact ShapesProofs.arith_result_indexing. Qed.
+Print Assumptions arith_result_indexing.
+
 (* ---- the hypotheses of the implications above are satisfiable ----------------------------------- *)
 Example dim_addr_row_major_example :
   prodZ [2; 3; 4] < two32 /\ in_range [2; 3; 4] [1; 2; 3] /\
